@@ -29,7 +29,16 @@
 //!    Roto types): where the Roto NAME of a registered type comes from — the
 //!    runtime's own list (`runtime.get_runtime_type(..)` and no `static` of the crate in the arm), anything else
 //!    (`.foreign`: the process-global entry, a cache), or no name at all
-//!    (`.structural`: the arm only recurses).
+//!    (`.structural`: the arm only recurses);
+//!  * `threadLocalTables`: every `static` declared inside a `thread_local!` (by name),
+//!    with every function under `src/` that names it: its operations on the
+//!    thread's table in source order (`.lookup` / `.insert` by the method names
+//!    called inside `NAME.with*(…)`, `.other` for anything unrecognised) and
+//!    `sharedAfterLookup`: after its first lookup the function acquires a
+//!    lock-shaped static (a miss falls through to the shared table). Decision
+//!    `threadLocalsPureCaches`: no function answers from the running thread's
+//!    table alone (library items are `Send`: created on one thread, registered on
+//!    another).
 use crate::find;
 use proc_macro2::{TokenStream, TokenTree};
 use quote::ToTokens;
@@ -78,7 +87,34 @@ struct Finder {
     file: String,
     statics: Vec<Static>,
     thread_locals: usize,
+    /// (file, name, type) of every `static` declared inside a `thread_local!`
+    tl_statics: Vec<(String, String, String)>,
     err: Option<String>,
+}
+
+/// the statics declared by the body of one `thread_local! { … }`: (name, type)
+fn thread_local_statics(body: TokenStream) -> Vec<(String, String)> {
+    let toks: Vec<TokenTree> = body.into_iter().collect();
+    let mut out = vec![];
+    let mut i = 0;
+    while i < toks.len() {
+        if matches!(&toks[i], TokenTree::Ident(id) if id == "static") {
+            if let Some(TokenTree::Ident(name)) = toks.get(i + 1) {
+                // the type: from after `:` to the top-level `=`
+                let mut ty = String::new();
+                let mut j = i + 3;
+                while j < toks.len() && !matches!(&toks[j], TokenTree::Punct(p) if p.as_char() == '=') {
+                    ty.push_str(&toks[j].to_string().replace(' ', ""));
+                    j += 1;
+                }
+                out.push((name.to_string(), ty));
+                i = j;
+                continue;
+            }
+        }
+        i += 1;
+    }
+    out
 }
 
 fn kind_of(ty: &str) -> &'static str {
@@ -133,10 +169,23 @@ impl<'ast> Visit<'ast> for Finder {
             ty,
         });
     }
+    fn visit_item_macro(&mut self, m: &'ast syn::ItemMacro) {
+        if skip_attrs(&m.attrs) {
+            return;
+        }
+        syn::visit::visit_item_macro(self, m);
+    }
     fn visit_macro(&mut self, m: &'ast syn::Macro) {
         let n = m.path.segments.last().map(|s| s.ident.to_string()).unwrap_or_default();
         if n == "thread_local" {
             self.thread_locals += 1;
+            let found = thread_local_statics(m.tokens.clone());
+            if found.is_empty() {
+                self.err = Some(format!("{}: a thread_local! without a recognisable `static NAME: T = …`", self.file));
+            }
+            for (name, ty) in found {
+                self.tl_statics.push((self.file.clone(), name, ty));
+            }
         } else if n == "lazy_static" {
             self.err = Some(format!("{}: lazy_static! is not in the recognised subset", self.file));
         }
@@ -300,6 +349,168 @@ impl<'ast, 'a> Visit<'ast> for FnFinder<'a> {
     }
 }
 
+// ------------------------------------------------------------ thread-local tables
+
+/// occurrences of the identity of the running thread (`thread::current`, `ThreadId`) outside
+/// tests and hooks: state keyed by it is thread-affine without any `thread_local!`
+struct ThreadIdFinder {
+    n: usize,
+}
+
+impl<'ast> Visit<'ast> for ThreadIdFinder {
+    fn visit_item_mod(&mut self, m: &'ast syn::ItemMod) {
+        if skip_attrs(&m.attrs) {
+            return;
+        }
+        syn::visit::visit_item_mod(self, m);
+    }
+    fn visit_item_fn(&mut self, f: &'ast syn::ItemFn) {
+        if skip_attrs(&f.attrs) {
+            return;
+        }
+        syn::visit::visit_item_fn(self, f);
+    }
+    fn visit_impl_item_fn(&mut self, f: &'ast syn::ImplItemFn) {
+        if skip_attrs(&f.attrs) {
+            return;
+        }
+        syn::visit::visit_impl_item_fn(self, f);
+    }
+    fn visit_path(&mut self, p: &'ast syn::Path) {
+        let segs: Vec<String> = p.segments.iter().map(|s| s.ident.to_string()).collect();
+        let n = segs.len();
+        if segs.last().map(|l| l == "ThreadId").unwrap_or(false) || (n >= 2 && segs[n - 2] == "thread" && segs[n - 1] == "current") {
+            self.n += 1;
+        }
+        syn::visit::visit_path(self, p);
+    }
+    fn visit_use_tree(&mut self, u: &'ast syn::UseTree) {
+        let t = u.to_token_stream().to_string();
+        if t.contains("ThreadId") || t.replace(' ', "").contains("thread::current") {
+            self.n += 1;
+        }
+    }
+}
+
+const TL_READS: [&str; 3] = ["get", "take", "with_borrow"];
+const TL_WRITES: [&str; 3] = ["set", "replace", "with_borrow_mut"];
+
+/// what one function body does with the thread-local `name`: its operations in source
+/// order (`.lookup` / `.insert` by the method names called inside `NAME.with*(…)`,
+/// `.other` for anything not recognised) and whether, after the first occurrence that looks a
+/// key up, the function acquires one of the lock-shaped statics `locks` (a miss falls through
+/// to the shared table)
+fn tl_fn(body: TokenStream, name: &str, locks: &[String]) -> Option<(Vec<&'static str>, bool)> {
+    let mut toks = vec![];
+    flatten(body, &mut toks);
+    let mut ops: Vec<&'static str> = vec![];
+    let mut first_lookup: Option<usize> = None;
+    let mut seen = false;
+    let mut i = 0;
+    while i < toks.len() {
+        if toks[i] == Tok::Ident(name.to_string()) {
+            seen = true;
+            let dot = toks.get(i + 1) == Some(&Tok::Punct('.'));
+            let m = match toks.get(i + 2) {
+                Some(Tok::Ident(m)) if dot => m.clone(),
+                _ => String::new(),
+            };
+            let call = toks.get(i + 3) == Some(&Tok::Open);
+            if !call || !(m.starts_with("with") || TL_READS.contains(&m.as_str()) || TL_WRITES.contains(&m.as_str())) {
+                ops.push(".other");
+                i += 1;
+                continue;
+            }
+            // the argument group of the call
+            let mut depth = 0usize;
+            let mut j = i + 3;
+            let mut inner: Vec<&'static str> = vec![];
+            while j < toks.len() {
+                match &toks[j] {
+                    Tok::Open => depth += 1,
+                    Tok::Close => {
+                        depth -= 1;
+                        if depth == 0 {
+                            break;
+                        }
+                    }
+                    Tok::Ident(mm) if j > 0 && toks[j - 1] == Tok::Punct('.') && toks.get(j + 1) == Some(&Tok::Open) => {
+                        if LOOKUPS.contains(&mm.as_str()) {
+                            inner.push(".lookup");
+                        } else if INSERTS.contains(&mm.as_str()) {
+                            inner.push(".insert");
+                        }
+                    }
+                    _ => {}
+                }
+                j += 1;
+            }
+            if m == "get" || m == "take" {
+                inner.push(".lookup");
+            } else if m == "set" || m == "replace" {
+                inner.push(".insert");
+            }
+            if inner.is_empty() {
+                inner.push(".other");
+            }
+            if first_lookup.is_none() && inner.contains(&".lookup") {
+                first_lookup = Some(i);
+            }
+            ops.extend(inner);
+            i = j;
+            continue;
+        }
+        i += 1;
+    }
+    if !seen {
+        return None;
+    }
+    let shared_after = match first_lookup {
+        None => false,
+        Some(at) => (at..toks.len()).any(|k| {
+            matches!(&toks[k], Tok::Ident(n) if locks.contains(n))
+                && toks.get(k + 1) == Some(&Tok::Punct('.'))
+                && matches!(toks.get(k + 2), Some(Tok::Ident(m)) if m == "lock" || m == "read" || m == "write")
+                && toks.get(k + 3) == Some(&Tok::Open)
+        }),
+    };
+    Some((ops, shared_after))
+}
+
+struct TlFinder<'a> {
+    name: &'a str,
+    locks: &'a [String],
+    fns: Vec<(String, Vec<&'static str>, bool)>,
+}
+
+impl<'ast, 'a> Visit<'ast> for TlFinder<'a> {
+    fn visit_item_mod(&mut self, m: &'ast syn::ItemMod) {
+        if skip_attrs(&m.attrs) {
+            return;
+        }
+        syn::visit::visit_item_mod(self, m);
+    }
+    fn visit_item_fn(&mut self, f: &'ast syn::ItemFn) {
+        if skip_attrs(&f.attrs) {
+            return;
+        }
+        if let Some((ops, sh)) = tl_fn(f.block.to_token_stream(), self.name, self.locks) {
+            self.fns.push((f.sig.ident.to_string(), ops, sh));
+        }
+    }
+    fn visit_impl_item_fn(&mut self, f: &'ast syn::ImplItemFn) {
+        if skip_attrs(&f.attrs) {
+            return;
+        }
+        if let Some((ops, sh)) = tl_fn(f.block.to_token_stream(), self.name, self.locks) {
+            self.fns.push((f.sig.ident.to_string(), ops, sh));
+        }
+    }
+    fn visit_item_macro(&mut self, _m: &'ast syn::ItemMacro) {
+        // the declaration itself
+    }
+}
+
 const CELLS: [&str; 8] = ["OnceLock", "OnceCell", "LazyLock", "LazyCell", "Mutex", "RwLock", "RefCell", "UnsafeCell"];
 
 fn idents_of(ts: TokenStream) -> Vec<String> {
@@ -414,17 +625,19 @@ pub fn c12globals(repo: &Path) -> Result<String, String> {
     rs_files(&repo.join("src"), &mut files)?;
     let mut statics = vec![];
     let mut thread_locals = 0;
+    let mut tl_statics: Vec<(String, String, String)> = vec![];
     let mut parsed = vec![];
     for p in &files {
         let rel = p.strip_prefix(repo).unwrap().to_string_lossy().to_string();
         let f = find::parse(repo, &rel)?;
-        let mut fd = Finder { file: rel.clone(), statics: vec![], thread_locals: 0, err: None };
+        let mut fd = Finder { file: rel.clone(), statics: vec![], thread_locals: 0, tl_statics: vec![], err: None };
         fd.visit_file(&f);
         if let Some(e) = fd.err {
             return Err(e);
         }
         statics.extend(fd.statics);
         thread_locals += fd.thread_locals;
+        tl_statics.extend(fd.tl_statics);
         parsed.push((rel, f));
     }
     let mut s = String::new();
@@ -480,6 +693,30 @@ pub fn c12globals(repo: &Path) -> Result<String, String> {
             cells
         ));
     }
+    s.push_str("]\n");
+    // every static of a `thread_local!` by name: the functions that use it (all files: a `pub` one is used elsewhere)
+    let lock_names: Vec<String> = statics.iter().filter(|st| st.kind == ".mutex" || st.kind == ".rwlock").map(|st| st.name.clone()).collect();
+    let mut thread_id_uses = 0;
+    for (_, f) in &parsed {
+        let mut tf = ThreadIdFinder { n: 0 };
+        tf.visit_file(f);
+        thread_id_uses += tf.n;
+    }
+    s.push_str(&format!("  threadIdUses := {thread_id_uses}\n"));
+    s.push_str("  threadLocalTables := [");
+    let mut tl_txt = vec![];
+    for (file, name, ty) in &tl_statics {
+        let mut fns_txt = vec![];
+        for (rel, f) in &parsed {
+            let mut tf = TlFinder { name, locks: &lock_names, fns: vec![] };
+            tf.visit_file(f);
+            for (fname, ops, sh) in tf.fns {
+                fns_txt.push(format!("\n        /- fn {fname} in {rel} -/ {{ ops := [{}], sharedAfterLookup := {sh} }}", ops.join(", ")));
+            }
+        }
+        tl_txt.push(format!("\n    -- thread_local {name} in {file}: {ty}\n    {{ fns := [{}] }}", fns_txt.join(",")));
+    }
+    s.push_str(&tl_txt.join(","));
     s.push_str("]\n\n/-- where `TypeChecker::rust_type_to_roto_type` takes the Roto name of a registered type from, per arm of its match over `ty.description` -/\ndef nameSources : List NameSource := [");
     let static_names: Vec<String> = statics.iter().map(|st| st.name.clone()).collect();
     let arms = name_sources(repo, &static_names)?;
